@@ -149,9 +149,46 @@ def build_grid(desc, rng):
     return MgrTwin(make_mgr(mk, sim), probe)
 
 
+def build_wrapped(desc, rng):
+    """managers (all-step / turn-based) over a wrapper stack over the scripted simulation or
+    MultiCorridor.  wk: 0 super-agent, 1 communication, 2 ravel, 3 flatten, 4 flatten∘ravel."""
+    from abmarl.sim.wrappers import (SuperAgentWrapper, CommunicationHandshakeWrapper,
+                                     RavelDiscreteWrapper, FlattenWrapper)
+    from abmarl.examples.sim.multi_corridor import MultiCorridor
+    from . import wrapstub
+    mk, wk, base = desc
+    if base[0] == 0:
+        inner = wrapstub.WStub(base[1], [[wrapstub.NULL_BASE + i] for i in range(base[1][1])])
+        inner_probe = lambda: [inner.t, list(inner.pend)]
+    else:
+        inner = MultiCorridor(end=base[1], num_agents=base[2])
+        inner_probe = lambda: [[int(a.position) for a in inner.agents.values()] if hasattr(inner, "corridor") else [],
+                               dict(getattr(inner, "reward", {}))]
+    learning = [k for k, a in inner.agents.items() if hasattr(a, "action_space")]
+    if wk == 0:
+        half = max(1, len(learning) // 2)
+        w = SuperAgentWrapper(inner, super_agent_mapping={"super0": learning[:half]})
+        wprobe = lambda: [dict(w._last_obs_reported) if hasattr(w, "_last_obs_reported") else {},
+                          dict(w._last_reward_reported) if hasattr(w, "_last_reward_reported") else {}]
+    elif wk == 1:
+        w = CommunicationHandshakeWrapper(inner)
+        wprobe = lambda: [getattr(w, "message_buffer", {}), getattr(w, "received_message", {})]
+    elif wk == 2:
+        w = RavelDiscreteWrapper(inner)
+        wprobe = lambda: []
+    elif wk == 3:
+        w = FlattenWrapper(inner)
+        wprobe = lambda: []
+    else:
+        w = RavelDiscreteWrapper(inner) if base[0] == 0 else FlattenWrapper(RavelDiscreteWrapper(inner))
+        wprobe = lambda: []
+    return MgrTwin(make_mgr(mk, w), lambda: [inner_probe(), wprobe()])
+
+
 STACKS[0] = build_script
 STACKS[1] = build_corridor
 STACKS[2] = build_grid
+STACKS[3] = build_wrapped
 
 
 def impl(inp):
@@ -205,7 +242,17 @@ def gen(tier, rng):
         yield [kind, desc, prefix, rng.randint(1, 12), [rng.getrandbits(30) for _ in range(4)]]
 
 
-EXTRA_DESC = {}
+def wrapped_desc(rng):
+    mk = rng.choice([0, 1])
+    wk = rng.choice([0, 1, 2, 3, 4])
+    if rng.random() < 0.5:
+        base = [0, stubsim.random_script(rng, mk, nmax=4, tmax=6, all_learning=True)]
+    else:
+        base = [1, rng.randint(4, 8), rng.randint(2, 3)]
+    return [mk, wk, base]
+
+
+EXTRA_DESC = {3: wrapped_desc}
 
 
 def nontrivial(inp, out):
@@ -214,6 +261,8 @@ def nontrivial(inp, out):
 
 def classify(inp, out):
     kind = {0: "script", 1: "corridor", 2: "grid"}.get(inp[0], f"stack{inp[0]}")
+    if inp[0] == 3:
+        kind = "wrapped-" + {0: "super", 1: "comm", 2: "ravel", 3: "flatten", 4: "stacked"}[inp[1][1]]
     mk = MGR.get(inp[1][0], "x") if isinstance(inp[1][0], int) else "x"
     return f"{kind}/{mk}/prefix{min(len(inp[2]), 3)}"
 
